@@ -227,6 +227,12 @@ func c12AppCheck(c c12AppCase) *kit.Verdict {
 		time.AfterFunc(20*time.Millisecond, func() { h.event("delay") })
 	}
 	var returned time.Time
+	// "bounded time": 30 s in general (expected: milliseconds); a rate-limited scan must not make the cancel wait for
+	// limiter slots (workers x rate interval can be minutes), so 8 s there
+	limit := c12Limit
+	if c.Rate != "" {
+		limit = 8 * time.Second
+	}
 	overall := time.After(150 * time.Second)
 	tick := time.NewTicker(50 * time.Millisecond)
 	defer tick.Stop()
@@ -239,9 +245,9 @@ wait:
 			h.mu.Lock()
 			fired, firedAt := h.fired, h.firedAt
 			h.mu.Unlock()
-			if fired && time.Since(firedAt) > c12Limit {
+			if fired && time.Since(firedAt) > limit {
 				buf := make([]byte, 1<<20)
-				return v.Failf("the scan call has not returned %v after the cancellation %s\n%s", c12Limit, c12Desc(c), clipN(string(buf[:stack(buf)]), 3000))
+				return v.Failf("the scan call has not returned %v after the cancellation %s\n%s", limit, c12Desc(c), clipN(string(buf[:stack(buf)]), 3000))
 			}
 		case <-overall:
 			buf := make([]byte, 1<<20)
@@ -255,7 +261,7 @@ wait:
 		// the run ended before the cancel point was reached (e.g. fewer results than k): nothing to judge
 		return &kit.Verdict{Inconclusive: true}
 	}
-	if took := returned.Sub(firedAt); took > c12Limit {
+	if took := returned.Sub(firedAt); took > limit {
 		return v.Failf("the scan call returned only %v after the cancellation %s", took, c12Desc(c))
 	}
 	// the result stream the call was draining comes to an end
@@ -344,8 +350,11 @@ func TestC12App(t *testing.T) {
 			}
 			if c.Kind == "probe" && c.N >= 30 && rapid.IntRange(0, 3).Draw(t, "rate") == 0 {
 				// a slow rate: when the cancel arrives (early in the scan) every other worker is waiting for the limiter
-				c.Rate = rapid.SampledFrom([]string{"1/2s", "30/m", "2/s", "1/800ms"}).Draw(t, "ratestr")
+				c.Rate = rapid.SampledFrom([]string{"1/2s", "30/m", "2/s", "1/800ms", "150/m", "20/m", "1200/h", "3/2s"}).Draw(t, "ratestr")
 				c.K = 1 + kit.Uniform(t, "k-early", 3)
+				if c.Workers < 8 {
+					c.Workers = rapid.SampledFrom([]int{8, 100}).Draw(t, "rate-workers")
+				}
 			}
 			return c
 		},
